@@ -203,6 +203,9 @@ def run(rep, facts, tier):
         loc = G.base_summaries_M(cfg, rep) if name == "M" else {}
         G.check_select(rep, cfg)
         G.config_hooks(rep, cfg, "C04")
+        ncov = G.check_trait_method_cover(rep, cfg)
+        if name == "A":
+            rep.floor("trait_methods_covered_A", ncov, 16)
         nid = G.check_identity_forms(rep, cfg, "C04")
         if name == "A":
             rep.floor("identity_forms_A", nid, 5)
